@@ -33,11 +33,11 @@ func c05Attr(kind int, v string) (string, any) {
 	switch kind {
 	case 0:
 		return "hostname", "h" + v
-	case 1:
+	case 3:
 		return "environment", map[string]any{"K": v, "E" + v: "1"}
 	case 2:
 		return "healthcheck", map[string]any{"interval": "1s", "timeout": v + "s"}
-	case 3:
+	case 1:
 		if v == "2" {
 			return "cap_add", []any{"C" + v, "D" + v}
 		}
